@@ -267,6 +267,22 @@ CHECKS.append({
             "in update_prior_suffix is outside what the multi-band fitter supports and outside the theorems.",
 })
 
+CHECKS.append({
+    "property_id": "C01",
+    "design_ref": "DESIGN.md 5 (C01), 7",
+    "technique": "Coq proof: DFT development over Coquelicot C (geometric sums of roots of unity -> sum(irfft2 F) = Re F[0,0] for every N), zero-frequency "
+                 "lemmas on regenerated kernels/ramps, and a Hermite/Bernstein-hull certificate (lra on the table dumped from the running renderer) bounding "
+                 "the amplitude sum for EVERY n; interval correspondence of the irfft2 and interpolation models; implementation-side total-flux oracle",
+    "text": "PARTIAL.  Nine theorems (Props/C01.v): the Fourier Gaussian mixture's DC value is the sum of its amplitudes, the point source's is flux, both "
+            "PSF ramps are 1 at zero frequency; the sum over all pixels of irfft2(F) is Re F[0,0] for every N>=1 and every half-plane array, so FFT "
+            "convolution multiplies totals by sum(psf); composites split flux f/1-f; for EVERY Sersic index in [0.8,6] the interpolated unit-flux "
+            "amplitudes sum to [0.955,1.045] ([0.98,1.02] on [1.25,4]).  Hence the Fourier renderer's total is sum(psf)*flux*S_T(n) for all positions, "
+            "angles, ellipticities, sizes, PSFs and frames.  Pixel-renderer quadrature accuracy, the hybrid's sampled Gaussians and f_in are not theorems.",
+    "note": "Trusted: Coq kernel, Coquelicot (classic), Interval, Reals axioms; translator units and the run-time dumps (amplitude table, interpax "
+            "derivative estimates); hand model of jnp.fft.irfft2 tied by interval goals on random arrays; float32 rounding (margin 0.9589 vs 0.955); the "
+            "plane integral of the Sersic law, quadrature error and in-footprint fractions only through the search oracle vs ref/refrender.py.",
+})
+
 _PENDING = "check not built yet in this session (build order in DESIGN.md section 9); will be claimed once its Coq model, theorems and tie exist"
 NOT_APPLICABLE = [
     {"property_id": "C%02d" % i, "reason": _PENDING}
